@@ -26,6 +26,7 @@ var (
 	c06pLen64      = sim.RegStat("probe:c06-64-bit-length-frame")
 	c06pCutHeader  = sim.RegStat("probe:c06-cut-inside-a-frame-header")
 	c06pWithHS     = sim.RegStat("probe:c06-frames-split-together-with-handshake-response")
+	c06pChained    = sim.RegStat("probe:c06-next-read-started-from-inside-the-completion")
 	c06pAPI        = [4]sim.StatID{sim.RegStat("probe:c06-api-NextMessage"), sim.RegStat("probe:c06-api-AsyncNextMessage"), sim.RegStat("probe:c06-api-NextFrame"), sim.RegStat("probe:c06-api-AsyncNextFrame")}
 )
 
@@ -160,6 +161,7 @@ type c06Reader struct {
 	d      *wsSess
 	c      *Ctx
 	api    int
+	chain  bool // asynchronous APIs: the next read is started from inside the completion callback (the usual receive loop)
 	max    int
 	gotM   []wsMsg
 	gotC   []wsCtl
@@ -176,6 +178,47 @@ func (r *c06Reader) readAll(nMsgs int) {
 		r.gotC = append(r.gotC, wsCtl{byte(mt), append([]byte(nil), payload...)})
 	})
 	buf := make([]byte, r.max+16)
+	if r.chain && (r.api == 1 || r.api == 3) {
+		r.d.w.Stat(c06pChained)
+		finished := false
+		var step func()
+		step = func() {
+			if r.api == 1 {
+				ws.AsyncNextMessage(buf, func(e error, n int, mt websocket.MessageType) {
+					if e != nil {
+						r.endErr, finished = e, true
+						return
+					}
+					r.gotM = append(r.gotM, wsMsg{byte(mt), append([]byte(nil), buf[:n]...)})
+					if len(r.gotM) < nMsgs {
+						step()
+					} else {
+						finished = true
+					}
+				})
+			} else {
+				ws.AsyncNextFrame(func(e error, f websocket.Frame) {
+					if e != nil {
+						r.endErr, finished = e, true
+						return
+					}
+					r.onFrame(f)
+					if len(r.gotM) < nMsgs {
+						step()
+					} else {
+						finished = true
+					}
+				})
+			}
+		}
+		if nMsgs > 0 {
+			step()
+			if !r.wait(&finished) {
+				r.endErr = errors.New("async read never completed")
+			}
+		}
+		return
+	}
 	guard := 0
 	for len(r.gotM) < nMsgs {
 		guard++
@@ -389,7 +432,7 @@ func runC06(c *Ctx, variant int) {
 		d.mem.Defer = w.Chance(1, 3)
 		d.feed(g.wire, cuts)
 	}
-	r := &c06Reader{d: d, c: c, api: api, max: maxSize}
+	r := &c06Reader{d: d, c: c, api: api, max: maxSize, chain: w.Chance(1, 2)}
 	func() {
 		defer func() {
 			if x := recover(); x != nil {
